@@ -92,6 +92,9 @@ def components(tier, disabled):
 
     return {
         "single": {"enumerate": single_cases, "check": check_single, "exhaustive": True, "shards": 16, "sample": lambda c, i: c["desc"]},
+        # theme: loops whose body calls subroutines that call further subroutines, the same subroutine called again later
+        "loopcalls": {"strategy": semantic_program(profile="modelled", disabled=disabled, max_stmts=(10 if q else 16), loop_bias=True),
+                      "check": check, "examples": 500 if q else 30000, "sample": lambda c, i: RCFG(c).text},
         "lsig": {"strategy": semantic_program(profile="modelled", disabled=disabled, max_stmts=(12 if q else 18), mode="lsig"),
                  "check": check, "examples": 1400 if q else 80000, "sample": lambda c, i: RCFG(c).text},
         "app": {"strategy": semantic_program(profile="modelled", disabled=disabled, max_stmts=(12 if q else 18), mode="app"),
